@@ -212,6 +212,29 @@ func extractC36(o *elib.Out) {
 		_ = sliceKinds
 		o.Set("seg.flushEditOrder", anchor, strings.Join(order, ","), okOrder && len(order) > 0, "EditAddFile,EditLogPointer")
 	}
+	// seg.spanTrim: recordEntrySpan walks the spans, keeps those wholly below the new batch, keeps
+	// the non-overwritten prefix of the first span reaching into it (`span.lastIndex = first - 1`)
+	// and drops the rest.
+	{
+		anchor := "raftstore/engine/wal_storage.go:recordEntrySpan"
+		re := ws.Func("WALStorage.recordEntrySpan")
+		v := "other"
+		if re != nil {
+			ast.Inspect(re.Body, func(n ast.Node) bool {
+				rs, ok := n.(*ast.RangeStmt)
+				if !ok || ws.Src(rs.X) != "ws.entrySpans" {
+					return true
+				}
+				_, a := ws.FindCmp(rs.Body, "span.lastIndex", "first")
+				_, b := ws.FindCmp(rs.Body, "span.firstIndex", "first")
+				if a && b && ws.HasStmt(rs.Body, "span.lastIndex = first - 1") {
+					v = "prefixKept"
+				}
+				return true
+			})
+		}
+		o.Set("seg.spanTrim", anchor, v, re != nil, "prefixKept")
+	}
 	mt := o.Load("lsm/memtable.go")
 	rc := mt.Func("LSM.recovery")
 	{
